@@ -674,10 +674,374 @@ def rename_types_back(j, known_adts):
     return out
 
 
+# ---------------------------------------------------------------------------------------------
+# A-DESUGAR: `Result::map`, `Result::map_err`, `Result::and_then` written out as the match they are.
+#   r.map(f)      = match r { Ok(v) => Ok(f(v)),  Err(e) => Err(e) }
+#   r.map_err(f)  = match r { Ok(v) => Ok(v),     Err(e) => Err(f(e)) }
+#   r.and_then(f) = match r { Ok(v) => f(v),      Err(e) => Err(e) }
+# f is a fn item (variant constructor, From::from, any path) or a closure built in the same block; the call to
+# f becomes an ordinary call terminator, which the rest of the machinery (call graph, effects, A-INLINE on
+# demand, error-flow rules) understands.  Without this, an error handed to an adaptor looks "discarded" and the
+# effects of the closure are invisible to the must-pass-through rules.
+
+def _split_top(s):
+    out, depth, cur = [], 0, ''
+    for ch in s:
+        if ch in '<([':
+            depth += 1
+        elif ch in '>)]':
+            depth -= 1
+        if ch == ',' and depth == 0:
+            out.append(cur.strip())
+            cur = ''
+        else:
+            cur += ch
+    if cur.strip():
+        out.append(cur.strip())
+    return out
+
+
+def _result_args(ty):
+    ty = ty.strip()
+    pre = 'std::result::Result<'
+    if not ty.startswith(pre) or not ty.endswith('>'):
+        return None
+    parts = _split_top(ty[len(pre):-1])
+    return parts if len(parts) == 2 else None
+
+
+def desugar_adaptors(j):
+    import re as _re
+    if j.get('crate') != 'mrecordlog':
+        return 0
+    by_id = {b['id']: b for b in j.get('instances', []) if b.get('id') is not None}
+    count = 0
+    for b in j.get('instances', []):
+        nblocks = len(b['blocks'])
+        for bi in range(nblocks):
+            blk = b['blocks'][bi]
+            t = blk['term']
+            if blk.get('cleanup') or t['k'] != 'call' or t.get('target') is None or t.get('dest') is None:
+                continue
+            m = _re.match(r'^std::result::Result::<.*>::(map|map_err|and_then)::<', t['callee'].get('name', ''))
+            if not m or len(t['args']) != 2:
+                continue
+            kind = m.group(1)
+            r_op, f_op = t['args']
+            if r_op.get('k') not in ('move', 'copy') or r_op['place']['p']:
+                continue
+            r = r_op['place']['l']
+            ra = _result_args(strip_crate(b['locals'][r]['ty']))
+            if ra is None:
+                continue
+            T, E = ra
+            # the function value
+            fnj = None
+            env = None
+            if f_op.get('k') == 'const' and isinstance(f_op.get('fn'), dict):
+                fnj = f_op['fn']
+            elif f_op.get('k') in ('move', 'copy') and not f_op['place']['p']:
+                cl = f_op['place']['l']
+                for s_ in blk['stmts']:
+                    if s_.get('k') == 'assign' and s_['place']['l'] == cl and not s_['place']['p'] and s_['rv'].get('k') == 'agg' and s_['rv'].get('agg') == 'closure':
+                        fnj = s_['rv']['fn']
+                        env = cl
+            if fnj is None:
+                continue
+            span, exp = t['span'], t.get('exp')
+            dest, target = t['dest'], t['target']
+            locs = b['locals']
+            def new_local(ty, adt=None):
+                locs.append({'ty': ty, 'adt': adt})
+                return len(locs) - 1
+            d = new_local('isize')
+            v = new_local(T)
+            e = new_local(E)
+            callee = dict(fnj)
+            callee['as_value'] = False
+            # result type of f
+            dty = strip_crate(locs[dest['l']]['ty']) if not dest['p'] else None
+            da = _result_args(dty) if dty else None
+            if kind == 'map':
+                fres_ty = da[0] if da else '_'
+            elif kind == 'map_err':
+                fres_ty = da[1] if da else '_'
+            else:
+                fres_ty = dty or '_'
+            # argument list of the call to f: closures take their environment first
+            def call_args(x):
+                if env is None:
+                    return [{'k': 'move', 'place': {'l': x, 'p': []}}], []
+                pre = []
+                cb = by_id.get(fnj.get('node'))
+                if cb is not None and cb['arg_count'] >= 1 and strip_crate(cb['locals'][1]['ty']).startswith('&'):
+                    rf = new_local('&' + strip_crate(locs[env]['ty']))
+                    pre.append({'k': 'assign', 'place': {'l': rf, 'p': []}, 'rv': {'k': 'ref', 'mut': 'mut' if strip_crate(cb['locals'][1]['ty']).startswith('&mut') else 'shared', 'place': {'l': env, 'p': []}}, 'span': span, 'exp': exp, 'dsg': True})
+                    return [{'k': 'move', 'place': {'l': rf, 'p': []}}, {'k': 'move', 'place': {'l': x, 'p': []}}], pre
+                return [{'k': 'move', 'place': {'l': env, 'p': []}}, {'k': 'move', 'place': {'l': x, 'p': []}}], pre
+            nb = len(b['blocks'])
+            B_ok, B_err = nb, nb + 1
+            def proj(var, idx):
+                return {'l': r, 'p': [{'k': 'downcast', 'variant': var, 'idx': idx, 'adt': 'std::result::Result'}, {'k': 'field', 'i': 0, 'name': '0', 'adt': 'std::result::Result', 'variant': var}]}
+            def agg(var, idx, x):
+                return {'k': 'agg', 'agg': 'adt', 'adt': 'std::result::Result', 'variant': var, 'variant_idx': idx, 'is_enum': True, 'fields': ['0'], 'ops': [{'k': 'move', 'place': {'l': x, 'p': []}}]}
+            def asg(pl, rv):
+                return {'k': 'assign', 'place': pl, 'rv': rv, 'span': span, 'exp': exp, 'dsg': True}
+            def goto(tb):
+                return {'k': 'goto', 'target': tb, 'span': span, 'exp': exp}
+            ok_stmts = [asg({'l': v, 'p': []}, {'k': 'use', 'op': {'k': 'move', 'place': proj('Ok', 0)}})]
+            err_stmts = [asg({'l': e, 'p': []}, {'k': 'use', 'op': {'k': 'move', 'place': proj('Err', 1)}})]
+            new_blocks = []
+            if kind == 'map':
+                fr = new_local(fres_ty)
+                args, pre = call_args(v)
+                new_blocks.append({'cleanup': False, 'stmts': ok_stmts + pre, 'term': {'k': 'call', 'callee': callee, 'args': args, 'dest': {'l': fr, 'p': []}, 'target': nb + 2, 'unwind': None, 'span': span, 'exp': exp, 'fn_span': span, 'fn_exp': exp}})
+                new_blocks.append({'cleanup': False, 'stmts': err_stmts + [asg(copy.deepcopy(dest), agg('Err', 1, e))], 'term': goto(target)})
+                new_blocks.append({'cleanup': False, 'stmts': [asg(copy.deepcopy(dest), agg('Ok', 0, fr))], 'term': goto(target)})
+            elif kind == 'map_err':
+                fr = new_local(fres_ty)
+                args, pre = call_args(e)
+                new_blocks.append({'cleanup': False, 'stmts': ok_stmts + [asg(copy.deepcopy(dest), agg('Ok', 0, v))], 'term': goto(target)})
+                new_blocks.append({'cleanup': False, 'stmts': err_stmts + pre, 'term': {'k': 'call', 'callee': callee, 'args': args, 'dest': {'l': fr, 'p': []}, 'target': nb + 2, 'unwind': None, 'span': span, 'exp': exp, 'fn_span': span, 'fn_exp': exp}})
+                new_blocks.append({'cleanup': False, 'stmts': [asg(copy.deepcopy(dest), agg('Err', 1, fr))], 'term': goto(target)})
+            else:
+                args, pre = call_args(v)
+                new_blocks.append({'cleanup': False, 'stmts': ok_stmts + pre, 'term': {'k': 'call', 'callee': callee, 'args': args, 'dest': copy.deepcopy(dest), 'target': target, 'unwind': None, 'span': span, 'exp': exp, 'fn_span': span, 'fn_exp': exp}})
+                new_blocks.append({'cleanup': False, 'stmts': err_stmts + [asg(copy.deepcopy(dest), agg('Err', 1, e))], 'term': goto(target)})
+            blk['stmts'].append(asg({'l': d, 'p': []}, {'k': 'discr', 'place': {'l': r, 'p': []}, 'adt': 'std::result::Result', 'ty': 'isize'}))
+            blk['term'] = {'k': 'switch', 'discr': {'k': 'move', 'place': {'l': d, 'p': []}}, 'targets': [[0, B_ok], [1, B_err]], 'otherwise': B_err, 'span': span, 'exp': exp, 'dsg': kind}
+            first_new = len(b['blocks'])
+            b['blocks'].extend(new_blocks)
+            count += 1
+            # a closure called exactly here is part of this body: put its MIR in place of the call
+            if env is not None:
+                cb = by_id.get(fnj.get('node'))
+                if cb is not None and cb is not b:
+                    for k_, nbk in enumerate(new_blocks):
+                        tt = nbk['term']
+                        if tt['k'] == 'call' and tt['callee'].get('node') == fnj.get('node') and cb['arg_count'] == len(tt['args']):
+                            inline_call(b, first_new + k_, cb)
+                            _forget_closure_value(blk, env)
+                            j.setdefault('_closures_inlined', []).append(cb['id'])
+            # the arms that build a known variant jump straight to the arm the caller's `?` / match selects
+            if not dest['p']:
+                cont = _parse_cont(b, target, dest['l'])
+                if cont is not None:
+                    for nbk in new_blocks:
+                        if nbk['term']['k'] != 'goto' or nbk['term']['target'] != target or not nbk['stmts']:
+                            continue
+                        last = nbk['stmts'][-1]
+                        if last.get('k') == 'assign' and last['place']['l'] == dest['l'] and not last['place']['p'] and last['rv'].get('k') == 'agg' and last['rv'].get('adt') == 'std::result::Result':
+                            _specialise_block(b, nbk, ('adt', 'std::result::Result', last['rv']['variant'], last['rv']['variant_idx']), cont, dest['l'])
+    count += desugar_iter_adaptors(j, by_id)
+    if count:
+        for b in j.get('instances', []):
+            prune_unreachable(b)
+        drop_inlined_closures(j)
+    return count
+
+
+def _subst_captures(b, first_block, env_param, caps, by_ref):
+    """In the blocks of an inlined closure body, a read of capture i through the environment parameter
+    (`(*_env).i` / `_env.i`) is the captured local itself."""
+    def fix_place(pl):
+        if pl['l'] != env_param:
+            return
+        p = pl['p']
+        k = 0
+        if by_ref:
+            if not p or p[0]['k'] != 'deref':
+                return
+            k = 1
+        if len(p) > k and p[k]['k'] == 'field' and p[k]['i'] < len(caps) and caps[p[k]['i']] is not None:
+            pl['l'] = caps[p[k]['i']]
+            pl['p'] = p[k + 1:]
+    def visit(o):
+        if isinstance(o, dict):
+            if 'l' in o and 'p' in o and isinstance(o['p'], list):
+                fix_place(o)
+            for v in o.values():
+                visit(v)
+        elif isinstance(o, list):
+            for x in o:
+                visit(x)
+    for blk in b['blocks'][first_block:]:
+        visit(blk['stmts'])
+        visit(blk['term'])
+
+
+def desugar_iter_adaptors(j, by_id):
+    """`iter.for_each(f)`, `iter.try_for_each(f)`, `iter.try_fold(init, f)` with a closure built in place are
+    written out as the loop they are (next(); match; call f), and the closure body is put in place of the call."""
+    import re as _re
+    count = 0
+    name_to_body = {}
+    for x in j.get('instances', []):
+        name_to_body.setdefault(strip_crate(x['name']), x)
+    for b in j.get('instances', []):
+        nblocks = len(b['blocks'])
+        for bi in range(nblocks):
+            blk = b['blocks'][bi]
+            t = blk['term']
+            if blk.get('cleanup') or t['k'] != 'call' or t.get('target') is None or t.get('dest') is None or t['dest']['p']:
+                continue
+            nm = strip_crate(t['callee'].get('name', ''))
+            m = _re.match(r'^<(.+) as std::iter::Iterator>::(try_for_each|for_each|try_fold)::<', nm)
+            if not m:
+                continue
+            ity, kind = m.group(1), m.group(2)
+            args = t['args']
+            if (kind == 'try_fold' and len(args) != 3) or (kind != 'try_fold' and len(args) != 2):
+                continue
+            it_op, f_op = args[0], args[-1]
+            if it_op.get('k') not in ('move', 'copy') or it_op['place']['p'] or f_op.get('k') not in ('move', 'copy') or f_op['place']['p']:
+                continue
+            cl = f_op['place']['l']
+            fnj = None
+            caps = None
+            for s_ in blk['stmts']:
+                if s_.get('k') == 'assign' and s_['place']['l'] == cl and not s_['place']['p'] and s_['rv'].get('k') == 'agg' and s_['rv'].get('agg') == 'closure':
+                    fnj = s_['rv']['fn']
+                    caps = [(o['place']['l'] if o.get('k') in ('move', 'copy') and not o['place']['p'] else None) for o in s_['rv'].get('ops', [])]
+            cb = by_id.get(fnj.get('node')) if fnj else None
+            if cb is None or cb is b:
+                continue
+            want_args = 3 if kind == 'try_fold' else 2
+            if cb['arg_count'] != want_args:
+                continue
+            dest, target = t['dest'], t['target']
+            dty = strip_crate(b['locals'][dest['l']]['ty'])
+            da = _result_args(dty)
+            if kind != 'for_each' and da is None:
+                continue
+            span, exp = t['span'], t.get('exp')
+            locs = b['locals']
+            def new_local(ty, adt=None):
+                locs.append({'ty': ty, 'adt': adt})
+                return len(locs) - 1
+            def asg(pl, rv):
+                return {'k': 'assign', 'place': pl, 'rv': rv, 'span': span, 'exp': exp, 'dsg': True}
+            def goto(tb):
+                return {'k': 'goto', 'target': tb, 'span': span, 'exp': exp}
+            def mv(l):
+                return {'k': 'move', 'place': {'l': l, 'p': []}}
+            item_ty = strip_crate(cb['locals'][cb['arg_count']]['ty'])
+            it = it_op['place']['l']
+            it_ty = strip_crate(locs[it]['ty'])
+            pre = []
+            if it_ty.startswith('&mut '):
+                ir = it
+            else:
+                ir = new_local('&mut ' + it_ty)
+                pre.append(asg({'l': ir, 'p': []}, {'k': 'ref', 'mut': 'mut', 'place': {'l': it, 'p': []}}))
+            acc = None
+            if kind == 'try_fold':
+                acc = new_local(strip_crate(cb['locals'][2]['ty']))
+                pre.append(asg({'l': acc, 'p': []}, {'k': 'use', 'op': copy.deepcopy(args[1])}))
+            n = new_local('std::option::Option<%s>' % item_ty, 'std::option::Option')
+            d1 = new_local('isize')
+            x = new_local(item_ty)
+            rb = new_local('&mut ' + ity)
+            env_ty = strip_crate(cb['locals'][1]['ty'])
+            by_ref = env_ty.startswith('&')
+            rf = new_local(env_ty) if by_ref else cl
+            cr = new_local(strip_crate(cb['locals'][0]['ty']))
+            nxt = name_to_body.get('<%s as std::iter::Iterator>::next' % ity)
+            next_callee = {'orig': 'std::iter::Iterator::next', 'orig_name': '<%s as std::iter::Iterator>::next' % ity, 'trait_method': True, 'as_value': False, 'self_ty': ity,
+                           'kind': 'item', 'path': strip_crate(nxt['path']) if nxt else '<I as std::iter::Iterator>::next', 'name': '<%s as std::iter::Iterator>::next' % ity,
+                           'local': nxt is not None, 'unresolved': False}
+            if nxt is not None:
+                next_callee['node'] = nxt['id']
+            nb = len(b['blocks'])
+            L, L2, Body, L3, Cont, Fail, Done = nb, nb + 1, nb + 2, nb + 3, nb + 4, nb + 5, nb + 6
+            some0 = {'l': n, 'p': [{'k': 'downcast', 'variant': 'Some', 'idx': 1, 'adt': 'std::option::Option'}, {'k': 'field', 'i': 0, 'name': '0', 'adt': 'std::option::Option', 'variant': 'Some'}]}
+            def res_proj(l, var, idx):
+                return {'l': l, 'p': [{'k': 'downcast', 'variant': var, 'idx': idx, 'adt': 'std::result::Result'}, {'k': 'field', 'i': 0, 'name': '0', 'adt': 'std::result::Result', 'variant': var}]}
+            def res_agg(var, idx, ops):
+                return {'k': 'agg', 'agg': 'adt', 'adt': 'std::result::Result', 'variant': var, 'variant_idx': idx, 'is_enum': True, 'fields': ['0'], 'ops': ops}
+            callee = dict(fnj)
+            callee['as_value'] = False
+            body_stmts = [asg({'l': x, 'p': []}, {'k': 'use', 'op': {'k': 'move', 'place': some0}})]
+            if by_ref:
+                body_stmts.append(asg({'l': rf, 'p': []}, {'k': 'ref', 'mut': 'mut' if env_ty.startswith('&mut') else 'shared', 'place': {'l': cl, 'p': []}}))
+            cargs = [mv(rf)] + ([mv(acc)] if kind == 'try_fold' else []) + [mv(x)]
+            blocks = [
+                {'cleanup': False, 'stmts': [asg({'l': rb, 'p': []}, {'k': 'ref', 'mut': 'mut', 'place': {'l': ir, 'p': [{'k': 'deref'}]}})],
+                 'term': {'k': 'call', 'callee': next_callee, 'args': [mv(rb)], 'dest': {'l': n, 'p': []}, 'target': L2, 'unwind': None, 'span': span, 'exp': exp, 'fn_span': span, 'fn_exp': exp}},
+                {'cleanup': False, 'stmts': [asg({'l': d1, 'p': []}, {'k': 'discr', 'place': {'l': n, 'p': []}, 'adt': 'std::option::Option', 'ty': 'isize'})],
+                 'term': {'k': 'switch', 'discr': mv(d1), 'targets': [[0, Done], [1, Body]], 'otherwise': Body, 'span': span, 'exp': exp, 'dsg': kind}},
+                {'cleanup': False, 'stmts': body_stmts,
+                 'term': {'k': 'call', 'callee': callee, 'args': cargs, 'dest': {'l': cr, 'p': []}, 'target': (L if kind == 'for_each' else L3), 'unwind': None, 'span': span, 'exp': exp, 'fn_span': span, 'fn_exp': exp}},
+            ]
+            if kind == 'for_each':
+                blocks.append({'cleanup': False, 'stmts': [], 'term': goto(L)})          # L3 unused
+                blocks.append({'cleanup': False, 'stmts': [], 'term': goto(L)})          # Cont unused
+                blocks.append({'cleanup': False, 'stmts': [], 'term': goto(L)})          # Fail unused
+                blocks.append({'cleanup': False, 'stmts': [asg(copy.deepcopy(dest), {'k': 'agg', 'agg': 'tuple', 'ops': []})], 'term': goto(target)})
+            else:
+                d2 = new_local('isize')
+                e = new_local(da[1])
+                blocks.append({'cleanup': False, 'stmts': [asg({'l': d2, 'p': []}, {'k': 'discr', 'place': {'l': cr, 'p': []}, 'adt': 'std::result::Result', 'ty': 'isize'})],
+                               'term': {'k': 'switch', 'discr': mv(d2), 'targets': [[0, Cont], [1, Fail]], 'otherwise': Fail, 'span': span, 'exp': exp, 'dsg': kind}})
+                cont_stmts = [asg({'l': acc, 'p': []}, {'k': 'use', 'op': {'k': 'move', 'place': res_proj(cr, 'Ok', 0)}})] if kind == 'try_fold' else []
+                blocks.append({'cleanup': False, 'stmts': cont_stmts, 'term': goto(L)})
+                blocks.append({'cleanup': False, 'stmts': [asg({'l': e, 'p': []}, {'k': 'use', 'op': {'k': 'move', 'place': res_proj(cr, 'Err', 1)}}), asg(copy.deepcopy(dest), res_agg('Err', 1, [mv(e)]))], 'term': goto(target)})
+                if kind == 'try_fold':
+                    done_stmts = [asg(copy.deepcopy(dest), res_agg('Ok', 0, [mv(acc)]))]
+                else:
+                    u = new_local('()')
+                    done_stmts = [asg({'l': u, 'p': []}, {'k': 'agg', 'agg': 'tuple', 'ops': []}), asg(copy.deepcopy(dest), res_agg('Ok', 0, [mv(u)]))]
+                blocks.append({'cleanup': False, 'stmts': done_stmts, 'term': goto(target)})
+            blk['stmts'].extend(pre)
+            blk['term'] = goto(L)
+            b['blocks'].extend(blocks)
+            count += 1
+            if kind != 'for_each':
+                cont = _parse_cont(b, target, dest['l'])
+                if cont is not None:
+                    for idx in (Fail, Done):
+                        nbk = b['blocks'][idx]
+                        last = nbk['stmts'][-1]
+                        _specialise_block(b, nbk, ('adt', 'std::result::Result', last['rv']['variant'], last['rv']['variant_idx']), cont, dest['l'])
+            # the closure body in place of the call, captures resolved to the captured locals
+            off_l = len(b['locals'])
+            first_new = len(b['blocks'])
+            inline_call(b, Body, cb)
+            _subst_captures(b, first_new, off_l + 1, caps or [], by_ref)
+            _forget_closure_value(blk, cl)
+            j.setdefault('_closures_inlined', []).append(cb['id'])
+    return count
+
+
+def _forget_closure_value(blk, cl):
+    """the closure aggregate no longer stands for a function someone may call: its body was put in place"""
+    for s_ in blk['stmts']:
+        if s_.get('k') == 'assign' and s_['place']['l'] == cl and not s_['place']['p'] and s_['rv'].get('k') == 'agg' and s_['rv'].get('agg') == 'closure':
+            fn = dict(s_['rv']['fn'])
+            fn['inlined_node'] = fn.pop('node', None)
+            s_['rv'] = dict(s_['rv'], fn=fn)
+
+
+def drop_inlined_closures(j):
+    ids = set(j.pop('_closures_inlined', []) or [])
+    if not ids:
+        return
+    inst = j['instances']
+    by_id = {b['id']: b for b in inst}
+    def look(cal):
+        n = cal.get('node')
+        return by_id.get(n) if n is not None else None
+    refs = _referenced(inst, look)
+    for b in list(inst):
+        if b['id'] in ids and id(b) not in refs:
+            inst.remove(b)
+
+
 def inline_unknown(j, known):
     """Mutates facts json j. Returns dict(inlined=[paths], dropped=[paths])."""
     if known is None or j.get('crate') != 'mrecordlog':
         return {'inlined': [], 'dropped': []}
+    n_desugared = desugar_adaptors(j)
     types_renamed = rename_types_back(j, load_known_adts())
     known, renamed = effective_known(j, known)
     rename_back(j, renamed)
@@ -718,4 +1082,4 @@ def inline_unknown(j, known):
         for b in drop:
             report['dropped'].add(strip_crate(b['path']))
             poly.remove(b)
-    return {'inlined': sorted(report['inlined']), 'dropped': sorted(report['dropped']), 'renamed': renamed, 'fields_renamed': fields_renamed, 'types_renamed': types_renamed}
+    return {'inlined': sorted(report['inlined']), 'dropped': sorted(report['dropped']), 'renamed': renamed, 'fields_renamed': fields_renamed, 'types_renamed': types_renamed, 'adaptors_desugared': n_desugared}
